@@ -42,6 +42,7 @@ def gen_model(rng, T, smax, vals):
     # how the observation of an epoch is made up from features of the track before it reaches the observation model: one feature, several, a 2D or 3D position from the
     # first two / three plus the remaining ones; the likelihood tables apply to the observation as documented (a model handed anything else answers from another table)
     c['obsmode'] = rng.choice([None, None, 'list', '2d', '2d+', '2d+', '3d', '3d+'])
+    c['wrap'] = rng.choice([None, None, None, 'partial', 'object', 'method'])
     return c
 
 
@@ -130,9 +131,20 @@ def run_impl(case):
     idx = lambda k, s: nn[1] if s is None else (s - 100 * (k + 1)) // 7
     lab = lambda k, l: None if (nn and nn[0] == k and nn[1] == l) else label(k, canon(case, k, l))
     sign = -1.0 if case['log'] else 1.0
-    hmm = HMM(S=lambda t, k: [lab(k, l) for l in range(ns[k])],
-              Q=lambda s1, s2, k, t: sign * float(qq[k + 1][idx(k, s1)][idx(k + 1, s2)]),
-              P=lambda s, y, k, t: sign * float(p[k][idx(k, s)] if documented(y, k) else p[k][::-1][idx(k, s)]), log=case['log'])
+    fS = lambda t, k: [lab(k, l) for l in range(ns[k])]
+    fQ = lambda s1, s2, k, t: sign * float(qq[k + 1][idx(k, s1)][idx(k + 1, s2)])
+    fP = lambda s, y, k, t: sign * float(p[k][idx(k, s)] if documented(y, k) else p[k][::-1][idx(k, s)])
+    wrap = case.get('wrap')
+    if wrap:
+        # the three models are "callables": a functools.partial binding the tables, an object with __call__, a bound method are models as good as a plain function
+        import functools
+        class Model:
+            def __init__(self, f): self.f = f
+            def __call__(self, *a): return self.f(*a)
+            def call(self, *a): return self.f(*a)
+        W = {'partial': lambda f: functools.partial(lambda tables, *a: f(*a), None), 'object': Model, 'method': lambda f: Model(f).call}[wrap]
+        fS, fQ, fP = W(fS), W(fQ), W(fP)
+    hmm = HMM(S=fS, Q=fQ, P=fP, log=case['log'])
     if case.get('again'):                         # the same track object was decoded before, with another model over the same candidate lists
         h0 = HMM(S=lambda t, k: [lab(k, l) for l in range(ns[k])],
                  Q=lambda s1, s2, k, t: sign * 1.0,
